@@ -230,8 +230,11 @@ class Machine:
                 if isinstance(e.op, ast.BitAnd):
                     return a & b
                 if isinstance(e.op, ast.Pow) and isinstance(
-                        b, int) and 0 <= b < 64:
+                        b, int) and -64 < b < 64 and isinstance(
+                            a, (int, float)) and (a != 0 or b >= 0):
                     return a ** b
+                if isinstance(e.op, ast.Div) and b:
+                    return a / b
                 if isinstance(e.op, ast.FloorDiv) and b:
                     return a // b
                 if isinstance(e.op, ast.Mod) and b and not isinstance(
@@ -412,7 +415,8 @@ class Machine:
             'any': any, 'all': all, 'min': min, 'max': max, 'abs': abs,
             'int': int, 'str': str, 'bool': bool, 'sum': sum,
             'reversed': lambda x: list(reversed(x)), 'iter': iter,
-            'next': next}
+            'next': next, 'bin': bin, 'divmod': divmod, 'round': round,
+            'pow': pow}
     METHODS = {
         dict: {'items', 'keys', 'values', 'get', 'pop', 'setdefault',
                'update', 'copy', 'clear', 'popitem'},
@@ -426,7 +430,8 @@ class Machine:
                'reverse', 'insert'},
         tuple: {'index', 'count'},
         str: {'lower', 'upper', 'startswith', 'endswith', 'format',
-              'join', 'split', 'strip'},
+              'join', 'split', 'strip', 'lstrip', 'rstrip', 'zfill',
+              'replace', 'isdigit', 'find', 'count'},
     }
 
     def apply_builtin(self, name, args, kw):
@@ -1222,6 +1227,21 @@ class _ModuleAttrs:
 
     def __getitem__(self, name):
         return self.modenv(name)
+
+
+def run_generator(fn, env, stubs=None, resolver=None):
+    """A generator function run to its end: -> ('yield', [values]) |
+    ('raise', name), machine.  (What it yields before an exception is
+    lost, as for a caller that collects into a list.)"""
+    m = Machine(env, stubs, resolver)
+    m.yields = []
+    try:
+        m.run(fn.body)
+    except Returned:
+        pass
+    except Raised as r:
+        return ('raise', r.name), m
+    return ('yield', m.yields), m
 
 
 def run_function(fn, env, stubs=None, resolver=None):
